@@ -73,6 +73,7 @@ R_IM = [
     ('R8.max_align', r'alignof\(std::max_align_t\)', 'MAX_ALIGN_T_ALIGN', False),
     ('R8.drop_using_xit', r'using x_iterator = typename view_t::x_iterator;', '', False),
     ('R8.channels', r'constexpr std::size_t _channels_in_image =\s*std::conditional\s*<.*?>::type::value;', 'const size_t _channels_in_image = NUM_CHANNELS;', False),
+    ('R8.access_slack', r'detail::access_slack_in_bytes<x_iterator>::value', 'ACCESS_SLACK_IMPL', False),
     ('R8.b2m', r'byte_to_memunit<\s*(?:typename view_t::)?x_iterator\s*>::value', 'BYTE_TO_MEMUNIT', False),
     ('R8.step', r'memunit_step\(typename view_t::x_iterator\(\)\)', 'PIXEL_STEP', False),
     ('R8.nc', r'num_channels<view_t>::value', 'NUM_CHANNELS', False),
@@ -196,7 +197,13 @@ void ALLOC_deallocate(Alloc al, addr_t p, size_t n) {
 #define NO_LIVE_BLOCKS() (!g_b0.live && !g_b1.live && !g_b2.live)
 /* view constructors (image_view(dims, locator(x_iterator(tmp), row))) */
 /* the last memory unit touched by an access to pixel (w-1, h-1) of the plane that starts at p0: one access spans ACCESS_SPAN units */
+#if BIT_ALIGNED
+/* bit-aligned pixels (memory unit = bit): the accessor of a channel loads / stores BITFIELD_BYTES whole bytes starting at the byte that holds the
+   channel's first bit; the last channel of the last pixel starts no later than its last bit */
+#define EXTENT_END(p0, d, row) (8 * (((p0) + ((d).y - 1) * (int64_t)(row) + ((d).x - 1) * (int64_t)PIXEL_STEP + PIXEL_STEP - 1) / 8) + 8 * (int64_t)BITFIELD_BYTES)
+#else
 #define EXTENT_END(p0, d, row) ((p0) + ((d).y - 1) * (int64_t)(row) + ((d).x - 1) * (int64_t)PIXEL_STEP + ACCESS_SPAN)
+#endif
 static gview_t VIEW_FROM_BASE(point_t d, addr_t tmp, size_t row) { gview_t v; v.w = d.x; v.h = d.y; v.sx = PIXEL_STEP; v.sy = (int64_t)row;
   v.pl.p[0] = tmp * BYTE_TO_MEMUNIT; v.pl.p[1] = 0; v.pl.p[2] = 0; v.pl.p[3] = 0; v.pl.p[4] = 0;
   v.glo = v.pl.p[0]; v.ghi = EXTENT_END(v.pl.p[0], d, row); return v; }
@@ -304,9 +311,9 @@ void hz_row_size(void){ img_t s; ptrdiff_t w; __CPROVER_assume(0 <= w && w <= DI
 void hz_total_size(void){ img_t s; point_t d; __CPROVER_assume(DIMS_OK(d) && s._align_in_bytes <= ALIGNMAX);
   size_t t = total_allocated_size_in_bytes(&s, d);
   size_t row = get_row_size_in_memunits(&s, d.x);
-  __CPROVER_assert(t * BYTE_TO_MEMUNIT >= row * (size_t)d.y * PLANES + (s._align_in_bytes > 0 ? (s._align_in_bytes - 1) * BYTE_TO_MEMUNIT : 0),
-                   "total_size.ensures: room for all rows of all planes plus the slack needed to align the first pixel");
-  __CPROVER_assert(t * BYTE_TO_MEMUNIT < row * (size_t)d.y * PLANES + (s._align_in_bytes > 0 ? (s._align_in_bytes - 1) * BYTE_TO_MEMUNIT : 0) + BYTE_TO_MEMUNIT,
+  __CPROVER_assert(t * BYTE_TO_MEMUNIT >= row * (size_t)d.y * PLANES + (s._align_in_bytes > 0 ? (s._align_in_bytes - 1) * BYTE_TO_MEMUNIT : 0) + ACCESS_SLACK_BYTES * BYTE_TO_MEMUNIT,
+                   "total_size.ensures: room for all rows of all planes plus the slack needed to align the first pixel (and, for bit-aligned pixels, for the bit field the last channel accessors load)");
+  __CPROVER_assert(t * BYTE_TO_MEMUNIT < row * (size_t)d.y * PLANES + (s._align_in_bytes > 0 ? (s._align_in_bytes - 1) * BYTE_TO_MEMUNIT : 0) + ACCESS_SLACK_BYTES * BYTE_TO_MEMUNIT + BYTE_TO_MEMUNIT,
                    "total_size.ensures: and not a byte more (rounded up to whole bytes)");
   __CPROVER_assert(0, "VACUITY"); }
 /* ---------------- layout contract proved on the real bodies of total_allocated_size_in_bytes / create_view / allocate_ ---------------- */
@@ -425,6 +432,10 @@ RECREATE_HARNESS(recreate_fill_alloc, recreate_fill_alloc(&a, d, al, A))
 #endif
 '''
 
+PROBE_PRE = r'''
+template <typename It, int B = byte_to_memunit<It>::value> struct bitfield_bytes { static const long value = 0; };
+template <typename It> struct bitfield_bytes<It, 8> { static const long value = (long)sizeof(typename std::iterator_traits<It>::reference::bitfield_t); };
+'''
 PROBE = r'''
   using image_t = IMG;
   using view_t = image_t::view_t; using x_iterator = view_t::x_iterator;
@@ -433,6 +444,9 @@ PROBE = r'''
   P_VAL("NUM_CHANNELS", (long long)num_channels<view_t>::value);
   P_VAL("IS_PLANAR", (long long)is_planar<view_t>::value);
   P_VAL("ACCESS_SPAN", (long long)ACCESS_SPAN_EXPR);
+  P_VAL("BIT_ALIGNED", (int)(byte_to_memunit<x_iterator>::value == 8)); P_VAL("BITFIELD_BYTES", (long long)bitfield_bytes<x_iterator>::value);
+  P_VAL("ACCESS_SLACK_BYTES", (long long)(byte_to_memunit<x_iterator>::value == 8 ? bitfield_bytes<x_iterator>::value - 1 : 0));      /* specification: what the accessors need */
+  P_VAL("ACCESS_SLACK_IMPL", (long long)detail::access_slack_in_bytes<x_iterator>::value);                                          /* the constant the real trait yields */
   P_VAL("MAX_ALIGN_T_ALIGN", (long long)alignof(std::max_align_t));
 #ifdef BOOST_NO_CXX17_HDR_MEMORY_RESOURCE
   P_VAL("PPDEF_BOOST_NO_CXX17_HDR_MEMORY_RESOURCE", 1);
@@ -513,6 +527,11 @@ INSTS = [
     ('rgba16_planar', 'thorough', 'rgba16_planar_image_t', 1, '2'),
     ('rgb32f', 'thorough', 'rgb32f_image_t', 0, 'sizeof(rgb32f_pixel_t)'),
     ('cmyk8_planar', 'thorough', 'cmyk8_planar_image_t', 1, '1'),
+    # bit-aligned images: memory unit = bit, accessors load sizeof(bit field) bytes (EXTENT_END has the exact formula; the span expression is unused)
+    ('gray2_ba', 'quick', 'bit_aligned_image1_type<2, gray_layout_t>::type', 0, '1'),
+    ('bgr121_ba', 'quick', 'bit_aligned_image3_type<1, 2, 1, bgr_layout_t>::type', 0, '1'),
+    ('rgb565_ba', 'thorough', 'bit_aligned_image3_type<5, 6, 5, rgb_layout_t>::type', 0, '1'),
+    ('gray1_ba', 'thorough', 'bit_aligned_image1_type<1, gray_layout_t>::type', 0, '1'),
 ]
 
 
@@ -537,7 +556,7 @@ def units(prop, names, bit_aligned=True):
                                 inputs=('a._view.w', 'a._view.h', 'a._align_in_bytes', 'd.x', 'd.y', 'al')))
         out.append(Unit('image.' + n, prop, C, extracts=extracts(planar), checks=checks,
                         insts=[(n, tier, {'T_IMG': cxx, 'ACCESS_SPAN_EXPR': span, 'EXPECT_PLANAR': str(planar), 'IS_PLANAR_IMG': 'true' if planar else 'false'})],
-                        probe_includes=['boost/gil.hpp'], probe=PROBE, replay=REPLAY,
+                        probe_includes=['boost/gil.hpp'], probe=PROBE, probe_pre=PROBE_PRE, replay=REPLAY,
                         preconditions=['image dimensions 0 <= w,h <= 2^20, alignment <= 4096, block addresses in [4096, 2^47]'],
                         assumed=['std::allocator_traits / the allocator itself (modelled by the ghost block table)',
                                  'pixel construction / destruction / fill / copy loops touch exactly the pixels of the view they are given (algorithm.hpp, C04)',
